@@ -1,6 +1,6 @@
 From Coq Require Import extraction.Extraction extraction.ExtrOcamlBasic.
-From TU Require Import Base C08_Model.
-Definition run := run_C08.
-Definition check := check_C08.
-Definition agree := agree_C08.
+From TU Require Import Base C08_Model Pipeline_Model C08_Pipeline.
+Definition run := run_C08x.
+Definition check := check_C08x.
+Definition agree := agree_C08x.
 Extraction "model.ml" run check agree.
